@@ -235,6 +235,9 @@ type Settings struct {
 	// Via: "" = the page URL was requested directly; "redirect" = the seed was another URL (other
 	// scheme, host and directory) that redirected to the page: references still resolve against the page
 	Via string `json:",omitempty"`
+	// DC: --domains-crawl: "" = off, "site" = a pattern matching the page's own host (anchors to it are
+	// always queued, with hops 0), "other" = a pattern matching neither host (only the hop rule applies)
+	DC string `json:",omitempty"`
 }
 
 type Case struct {
@@ -251,8 +254,8 @@ func (c Case) String() string {
 	for _, x := range c.Plants {
 		p = append(p, x.Carrier+":"+x.Form)
 	}
-	return fmt.Sprintf("#%d %s quote=%s nest=%s page=%s disable-html-tag=%q capture-alternate-pages=%v disable-assets-capture=%v max-hops=%d page-hops=%d depth=%d via=%q",
-		c.ID, strings.Join(p, "+"), c.Quote, c.Nest, c.Scheme, c.Set.Disable, c.Set.Alt, c.Set.DAC, c.Set.MaxHops, c.Set.PageHops, c.Set.Depth, c.Set.Via)
+	return fmt.Sprintf("#%d %s quote=%s nest=%s page=%s disable-html-tag=%q capture-alternate-pages=%v disable-assets-capture=%v max-hops=%d page-hops=%d depth=%d via=%q domains-crawl=%q",
+		c.ID, strings.Join(p, "+"), c.Quote, c.Nest, c.Scheme, c.Set.Disable, c.Set.Alt, c.Set.DAC, c.Set.MaxHops, c.Set.PageHops, c.Set.Depth, c.Set.Via, c.Set.DC)
 }
 
 func (c Case) docKey() string {
@@ -264,7 +267,7 @@ func (c Case) docKey() string {
 }
 
 // dimensions used for signatures (alphabets identical in both tiers) and for the human text only.
-var sigDims = []string{"form", "page", "tag", "alt", "dac", "hops", "depth", "via"}
+var sigDims = []string{"form", "page", "tag", "alt", "dac", "hops", "depth", "via", "dc"}
 var otherDims = []string{"quote", "nest", "partner"}
 
 func (c Case) dims(slotPlant int) map[string]string {
@@ -283,6 +286,7 @@ func (c Case) dims(slotPlant int) map[string]string {
 	return map[string]string{
 		"form": p.Form, "page": c.Scheme, "tag": tag, "alt": fmt.Sprint(c.Set.Alt), "dac": fmt.Sprint(c.Set.DAC),
 		"hops": fmt.Sprintf("page%d-max%d", c.Set.PageHops, c.Set.MaxHops), "depth": fmt.Sprint(c.Set.Depth), "via": map[bool]string{true: "direct", false: c.Set.Via}[c.Set.Via == ""],
+		"dc": map[bool]string{true: "off", false: c.Set.DC}[c.Set.DC == ""],
 		"quote": c.Quote, "nest": c.Nest, "partner": partner,
 	}
 }
@@ -342,6 +346,7 @@ func alphabets(tier string) map[string]any {
 	}
 	return map[string]any{
 		"carriers": cs, "quoting": quotes, "reference_forms": formNames, "nesting": nests, "page_url": []string{"http://site.example/a/b/page.html", "https://site.example/a/b/page.html"},
+		"domains_crawl":   "anchors once more with --domains-crawl matching the page's own host / another host x (page hops, max-hops) in {(0,0),(0,1),(1,1),(1,2),(2,2)}",
 		"via_redirect":    "every carrier x reference form x page scheme once more with the page reached through a redirection from a URL of another scheme, host and directory (seed -> 302 -> page)",
 		"single_settings": "disable-html-tag {none, carrier's tag, another tag} x capture-alternate-pages {off,on} x disable-assets-capture {off,on} x depth {0, 1 (HTML as asset), 3} x (page hops, max-hops) {(0,0),(0,1)} (+(1,1),(1,2) for a href; a href only at depth 0)",
 		"pairs":           "all ordered pairs of carriers (incl. twice the same) in one document, quoting " + strings.Join(pq, ",") + ", nesting " + strings.Join(pn, ",") + ", forms " + strings.Join(pf, ",") + " for each, both page schemes, settings: disable-html-tag {none, first's tag, second's tag} x capture-alternate-pages {off,on if a link is involved} x (0,1) hops, plus disable-assets-capture on, plus max-hops 0 when an anchor is involved",
@@ -403,6 +408,24 @@ func enumerate(tier string, f func(Case)) {
 			}
 			for _, scheme := range schemes {
 				emit(Case{Plants: []Plant{{cd.Name, form}}, Quote: "dq", Nest: "body", Scheme: scheme, Set: Settings{PageHops: 0, MaxHops: 1, Via: "redirect"}})
+			}
+		}
+	}
+	// anchors with --domains-crawl active: every form x page scheme x pattern {page's host, another host} x hop situations
+	for _, cd := range carriers {
+		if cd.Kind != "outlink" {
+			continue
+		}
+		for _, form := range formNames {
+			if !legal(Case{Plants: []Plant{{cd.Name, form}}, Quote: "dq", Nest: "body", Scheme: "http"}) {
+				continue
+			}
+			for _, scheme := range schemes {
+				for _, dc := range []string{"site", "other"} {
+					for _, h := range [][2]int{{0, 0}, {0, 1}, {1, 1}, {1, 2}, {2, 2}} {
+						emit(Case{Plants: []Plant{{cd.Name, form}}, Quote: "dq", Nest: "body", Scheme: scheme, Set: Settings{PageHops: h[0], MaxHops: h[1], DC: dc}})
+					}
+				}
 			}
 		}
 	}
